@@ -392,8 +392,12 @@ export function evalExpr(e, env) {
 
 // ---- comparing delivered values ----------------------------------------------------------------
 
+/** `signedZero: false` makes 0 and -0 the same value: the runtime detects changes with `!==`, so an update from 0 to -0
+ *  is (deliberately) not an update; used by the checks that compare an updated instance with a fresh one. */
+export const sameOptions = { signedZero: true }
 export function same(a, b, seen = new Map()) {
   if (Object.is(a, b)) return true
+  if (!sameOptions.signedZero && a === 0 && b === 0) return true
   if (typeof a !== typeof b) return false
   if (typeof a !== 'object' || a === null || b === null) return false
   if (seen.get(a) === b) return true
